@@ -15,6 +15,7 @@ import (
 	"github.com/elementsproject/peerswap/policy"
 	"pgregory.net/rapid"
 
+	"verifharness/pbt"
 	"verifharness/stats"
 )
 
@@ -80,13 +81,18 @@ func snapEqual(a, b *peersync.PeerCapabilitySnapshot) bool {
 	return string(ja) == string(jb)
 }
 
-func TestC28PeerSyncStateMachine(t *testing.T) {
+func TestC28PeerSyncStateMachine(t *testing.T) { propC28PeerSyncStateMachine(t) }
+
+// FuzzC28PeerSyncStateMachine drives the same property body with Go's coverage-guided fuzzer (thorough tier).
+func FuzzC28PeerSyncStateMachine(f *testing.F) { propC28PeerSyncStateMachine(f) }
+
+func propC28PeerSyncStateMachine(t testing.TB) {
 	col := stats.Get("C28.peersync")
 	dir := fastTempDir("c28")
 	defer os.RemoveAll(dir)
 	n := 0
 	ids := []string{"02" + fmt.Sprintf("%064x", 1), "02" + fmt.Sprintf("%064x", 2), "03" + fmt.Sprintf("%064x", 3), "03" + fmt.Sprintf("%064x", 4)}
-	rapid.Check(t, func(t *rapid.T) {
+	pbt.Run(t, func(t *rapid.T) {
 		n++
 		path := fmt.Sprintf("%s/c28-%d.db", dir, n)
 		store, err := peersync.NewStore(path)
